@@ -160,6 +160,48 @@ func c04NewProxy(c c04Config) (*Proxy, error) {
 	return p, nil
 }
 
+// c04Order reads the server slice of a balancer (the field named Servers, promoted from the embedded
+// base or declared directly): URL and weight of every server, in the balancer's order. ok is false
+// when the balancer keeps no such slice.
+func c04Order(lb LoadBalancer) (out []string, ok bool) {
+	v := reflect.ValueOf(lb)
+	for v.IsValid() && (v.Kind() == reflect.Ptr || v.Kind() == reflect.Interface) {
+		if v.IsNil() {
+			return nil, false
+		}
+		v = v.Elem()
+	}
+	if !v.IsValid() || v.Kind() != reflect.Struct {
+		return nil, false
+	}
+	f := v.FieldByName("Servers")
+	if !f.IsValid() || f.Kind() != reflect.Slice {
+		return nil, false
+	}
+	out = []string{}
+	for i := 0; i < f.Len(); i++ {
+		e := f.Index(i)
+		if e.CanAddr() {
+			e = reflect.NewAt(e.Type(), unsafe.Pointer(e.UnsafeAddr())).Elem()
+		}
+		srv, isSrv := e.Interface().(*Server)
+		if !isSrv || srv == nil {
+			return nil, false
+		}
+		out = append(out, fmt.Sprintf("%s w=%d", srv.URL, srv.Weight))
+	}
+	return out, true
+}
+
+// c04UseService delivers a discovery report (as the pool's watcher goroutine does) and observes
+// whether the balancer built has the servers of the balancer it replaces, in the same order.
+func c04UseService(sp *ServerPool, insts []c04Inst) (same bool) {
+	before, ok1 := c04Order(sp.LoadBalancer())
+	sp.useService(c04Instances(insts))
+	after, ok2 := c04Order(sp.LoadBalancer())
+	return ok1 && ok2 && reflect.DeepEqual(before, after)
+}
+
 func c04Instances(insts []c04Inst) map[string]*serviceregistry.ServiceInstanceSpec {
 	m := map[string]*serviceregistry.ServiceInstanceSpec{}
 	for _, in := range insts {
@@ -593,8 +635,8 @@ func TestVerifC04Replay(t *testing.T) {
 			switch vx.Str(st["a"]) {
 			case "rep":
 				insts := c04InstsOf(st["insts"])
-				p.mainPool.useService(c04Instances(insts))
-				w.Emit(vx.M{"ev": "rep", "insts": insts})
+				same := c04UseService(p.mainPool, insts)
+				w.Emit(vx.M{"ev": "rep", "insts": insts, "same": same})
 			case "hold":
 				pn, k := vx.Str(st["p"]), vx.Str(st["k"])
 				held[pn] = c04Hold(p.mainPool, keys.request(k))
@@ -777,11 +819,23 @@ func TestVerifC04Trace(t *testing.T) {
 		}
 		age()
 		held := map[string]*c04Held{}
+		var lastInsts []c04Inst
 		for s := 0; s < nSteps; s++ {
-			if cfg.Disc && rng.Intn(12) == 0 {
+			if cfg.Disc && rng.Intn(10) == 0 {
+				// a discovery report: new instances, or (one in three) the previous report over again, or
+				// (one in six) a report without a qualifying instance: the pool falls back to its static list
 				insts := c04RandInsts(rng)
-				p.mainPool.useService(c04Instances(insts))
-				w.Emit(vx.M{"ev": "rep", "insts": insts})
+				switch x := rng.Intn(6); {
+				case x < 2 && lastInsts != nil:
+					insts = lastInsts
+				case x == 2:
+					for i := range insts {
+						insts[i].T = false
+					}
+				}
+				lastInsts = insts
+				same := c04UseService(p.mainPool, insts)
+				w.Emit(vx.M{"ev": "rep", "insts": insts, "same": same})
 				age()
 				continue
 			}
@@ -978,8 +1032,8 @@ func TestVerifC04Stress(t *testing.T) {
 		for b := 0; b < bursts; b++ {
 			if b > 0 && cfg.Disc {
 				insts := c04RandInsts(rng)
-				sp.useService(c04Instances(insts))
-				w.Emit(vx.M{"ev": "rep", "insts": insts})
+				same := c04UseService(sp, insts)
+				w.Emit(vx.M{"ev": "rep", "insts": insts, "same": same})
 			}
 			// every other round robin burst runs on a balancer that has served 2^b - d selections before, so
 			// that the burst crosses the power of two. (Which servers had had the extra selection is not
